@@ -21,8 +21,8 @@ LIBS = ['ipc/.libs/libipc.a', 'base/.libs/libbase.a', 'sbuf/.libs/libsbuf.a', 'i
 
 RULE = ('scenarios = capacity {1,2,4} x items k = 1..capacity+1 (k = capacity+1 forces Queue::Full and buffer wrap-around) x consumer '
         'starting with its at-start sweep or already idle+blocked; every schedule with <= 2 (quick) / 3 (thorough) preemptions; in addition '
-        'ALL interleavings (no bound, state caching) for capacity 1,2 with k = 1 and (idle consumer) k = 2 (quick) / capacity 1,2,4 with '
-        'k <= 2 (thorough); each execution runs the real push()/pop()/clearSignal() code')
+        'ALL interleavings (no bound, state caching) for capacity 1,2 with k <= 2 (quick) / capacity 1,2,4 with k <= 2 and capacity 2,4 '
+        'with k = 3 and an idle consumer (thorough); each execution runs the real push()/pop()/clearSignal() code')
 
 
 def _build(ctx):
